@@ -32,6 +32,10 @@ EXPLANATION = (
 TECHNIQUE += '; finite-domain constant evaluation of the VASP coordinate-mode switch; symbolic index-map evaluation of cell/grid scaling'
 EXPLANATION += ' Added: (R4) the statements of the VASP header reader that decide Cartesian vs direct coordinates, evaluated for every first character (with and without a selective-dynamics line), select Cartesian exactly for C, c, K, k; (R5) cube cell vectors = step vector i x count i and VASP grid axes = cell vector i / count i, read off the broadcasting expression evaluated on symbols.'
 EXPLANATION += ' R2 now also covers the QCSchema writer (json.dump sink); R3 evaluates re-defined constants against the full frozen scipy.constants table (spec/codata_full.json).'
+# --- metadata added for batch 7
+TECHNIQUE += '; evaluation of the [Atoms] unit selection on every spelling'
+EXPLANATION += ' Added: (R6) Molden `[Atoms]` line: the unit keyword (AU / Angs, any case, with or without parentheses) selects the coordinate factor, evaluated with a marker factor; the units domain joins units under partial in-place scaling (a slice scaled, or entries stored after the array was scaled, carry a mixed unit).'
+# --- end metadata batch 7
 TRUSTED = ["CPython ast parser", "frozen unit oracle (DESIGN.md Appendix A; format specifications)", "frozen CODATA 2018 values in spec/codata.json"]
 
 # non-plain reader slots: (module, key path) -> expected tag text.  Everything else must be plain.
